@@ -59,7 +59,7 @@ TEXT = {
     },
     "C18": {
         "technique": "property-based testing (rapid): configuration x session generator; dial-address, registration-prefix and PING/PONG token oracles on the wire",
-        "level_text": "Generated configurations and sessions are run through real Connect cycles against the scripted server: the dialled address (default port 6667/6697 only when absent), the exact registration prefix (CAP LS?, PASS?, NICK current, USER ident 12 * :name), one PONG per server PING carrying the same token for all token shapes (also when the PING arrives behind a full output queue), and client PINGs exactly when PingFreq > 0 (on every connect cycle). Configuration (Server, SSL and Pass together, or SSL alone with Server known from the start) may be changed through Config() between Client() and Connect().",
+        "level_text": "Generated configurations and sessions are run through real Connect cycles against the scripted server: the dialled address (default port 6667/6697 only when absent), the exact registration prefix (CAP LS?, PASS?, NICK current, USER ident 12 * :name), one PONG per server PING carrying the same token for all token shapes (also when the PING arrives behind a full output queue), and client PINGs exactly when PingFreq > 0 (on every connect cycle). Configuration (Server, SSL and Pass together, or SSL alone with Server known from the start) may be changed through Config() between Client() and Connect(); before a reconnect the nick may have been refused (433) or changed by the server without anything calling Me(). A regression leg replays the history of the repaired C18 defect.",
         "level_note": "Scripted-socket leg: SSL configurations are checked for the dialled address only. Loopback leg: real TCP and TLS sessions without a proxy, default ports 6667/6697 actually reached (skipped, counted, if they cannot be bound). Bracketed IPv6 without a port is outside the generated domain.",
     },
     "C20": {
@@ -89,7 +89,7 @@ TEXT = {
     },
     "C17": {
         "technique": "model-based property testing (rapid): scripted-server model of nick ownership; exhaustive last-byte sweep + random strings for DefaultNewNick",
-        "level_text": "Scripts of pre-welcome collisions, welcome with the same or a server-chosen nick, client changes confirmed or refused up to three times first, server-forced changes and other users' changes to resembling names are run in lock-step; after every step Config().Me (read first) and Me() must be non-nil and Me().Nick must be the nick the model server uses; each 433 must be answered by exactly one NICK gen(refused). DefaultNewNick is checked on every last byte 0-255 and on random strings.",
+        "level_text": "Scripts of pre-welcome collisions, welcome with the same or a server-chosen nick, client changes confirmed or refused up to three times first, server-forced changes and other users' changes to resembling names are run in lock-step; and reconnects of the same client (Config().Me.Nick optionally edited while disconnected) are run in lock-step; after every step Config().Me (read first) and Me() must be non-nil and Me().Nick must be the nick the model server uses; each 433 must be answered by exactly one NICK gen(refused). DefaultNewNick is checked on every last byte 0-255 and on random strings.",
         "level_note": "Four generators (default and three custom). The chain of generated nicks is kept clear of the current nick and other users' nicks (a server would not refuse/confirm those consistently).",
     },
     "C19": {
